@@ -473,6 +473,13 @@ func genSrvBasic(p *prng, thorough bool, w *bufio.Writer) {
 			g.gauges()
 		}
 	}
+	// header blocks longer than a frame (F33): the peer reassembles HEADERS + CONTINUATION and must read the handler's fields
+	g.newConn(4, 0, 0)
+	g.settings()
+	g.bigBlocks(thorough)
+	g.newConn(8, 0, 0)
+	g.settings()
+	g.bigBlockBurst(3)
 	g.line("srv %s end", g.id)
 }
 
@@ -1281,6 +1288,22 @@ func genSrvSettings(p *prng, thorough bool, w *bufio.Writer) {
 	g.newConn(4, 0, 0)
 	g.frame(frameBytes(6, 0, 0, make([]byte, 20000)))
 	g.ping(1)
+	// header blocks longer than a frame (F33): towards a peer that left MAX_FRAME_SIZE at 16384, one that announced
+	// more (the server still cuts at the size every peer accepts), one that announced exactly 16384
+	for i, mfs := range []uint32{0, 1 << 20, 16384} {
+		g.newConn(4, 0, 0)
+		if mfs == 0 {
+			g.settings()
+		} else {
+			g.settings(5, mfs)
+		}
+		g.bigBlocks(i == 0 || thorough)
+	}
+	for n := 1; n <= 4; n++ {
+		g.newConn(8, 0, 0)
+		g.settings()
+		g.bigBlockBurst(n)
+	}
 	g.line("srv %s end", g.id)
 }
 
